@@ -30,7 +30,8 @@ def net_cfg(rng, frag=None):
 def base_config(rng, cls=None, frag=None):
     return {"transport": rng.choice(["tcp", "unix"]), "cls": cls or rng.choice(["T", "T", "S"]),
             "size": rng.choice([None, None, 1, 2, 3]), "hmask": rng.choice([0, 3, 5]),
-            "net_seed": rng.randrange(1 << 30), "net": net_cfg(rng, frag), "name": "p"}
+            "net_seed": rng.randrange(1 << 30), "net": net_cfg(rng, frag), "name": "p",
+            "host": rng.choice(["127.0.0.1", "127.0.0.1", "::1", "localhost", "fe80::1%eth0"])}
 
 
 # ----------------------------------------------------------------------------- members of a class
@@ -707,7 +708,21 @@ def c19_run(rng):
                 lines.append("exit")
             seq = [{"op": "cli", "c": lab, "lines": lines, "main": kind == "main"}]
         acts.append(seq)
-    acts.append([{"op": "stop"}] if rng.random() < 0.9 else [])
+    parked = n >= 1 and rng.random() < 0.3
+    if parked:
+        # one more session sits in a command whose method itself waits, for as long as the others are being served
+        seq = [{"op": "connect", "c": 40, "w": 80}]
+        if rng.random() < 0.5:
+            seq.append({"op": "line", "c": 40, "text": "num-running"})
+        if rng.random() < 0.6:
+            seq.append({"op": "line", "c": 40, "text": "until-closed"})
+        else:
+            # (first line and the waiting command in ONE write: the waiting command has begun once the first is answered)
+            seq += [{"op": "line", "c": 40, "text": "start 2" if cfg["cls"] == "S" else "apply tpsim.ctlworkers.work -n 2"},
+                    {"op": "line", "c": 40, "text": "until-closed"}]
+        acts.insert(rng.randrange(len(acts) + 1), seq)
+    stop_in_mix = rng.random() < (0.9 if not parked else 0.4)
+    acts.append([{"op": "stop"}] if stop_in_mix else [])
     # interleave the sequences preserving each one's order
     pend = [list(a) for a in acts if a]
     while pend:
@@ -721,6 +736,12 @@ def c19_run(rng):
         elif r < 0.7:
             steps.append({"op": "run", "n": rng.choice([1, 2, 5, 20])})
     steps.append({"op": "idle"})
+    if parked:
+        # the wait ends: work is let go and somebody closes the pool (through a session if the server is still up)
+        steps += [{"op": "gate", "k": k} for k in range(12)]
+        steps += [{"op": "idle"}, {"op": "connect", "c": 41, "w": 80}, {"op": "idle"},
+                  {"op": "line", "c": 41, "text": "gather-and-close -r"}, {"op": "idle"},
+                  {"op": "direct", "m": "gather_and_close", "a": [True]}, {"op": "idle"}]
     if rng.random() < 0.25:
         # complete stop (all raw clients leave), then the same server object is started again and must serve again
         steps.append({"op": "stop"})
@@ -748,6 +769,50 @@ def c19_killed_session_run(rng):
     return {"prop": "C19", "config": cfg, "steps": steps, "final": ["c19"], "simple_func": "stopper", "expect_killed": [1]}
 
 
+def _end_waits(sim):
+    """A session whose command is still waiting (until-closed, gather-and-close ...) cannot notice that its client
+    left - recorded finding F-PARKED, decided by the directed family below.  Everywhere else the waits are ended
+    (work let go, pool closed) before the clients leave."""
+    from .ctlsim import BLOCKING
+
+    def waiting():
+        return [c for c in sim.clients.values() if c.kind == "raw" and c.connected and len(c.replies()) < len(c.lines)
+                and c.lines[len(c.replies())].strip().split(" ")[0] in BLOCKING]
+    if not waiting():
+        return
+    sim.stats["steered:F-PARKED"] += 1
+
+    def let_go():
+        for _ in range(50):
+            pend = [fut for fut in sim.gates.values() if not fut.done()]
+            if not pend:
+                break
+            for fut in pend:
+                fut.set_result(None)
+            sim.run_to_idle()
+    let_go()
+    if waiting():
+        sim.exec_step({"op": "direct", "m": "gather_and_close", "a": [True]})
+        sim.run_to_idle()
+        let_go()
+
+
+def c19_parked_run(rng):
+    """Recorded finding F-PARKED: the client of a session whose command is still waiting leaves, then the server is stopped."""
+    cfg = base_config(rng, rng.choice(["T", "S"]), frag=0.0)
+    cfg["net"]["max_chunk"] = 0
+    cfg["size"] = None
+    steps = [{"op": "start"}, {"op": "idle"}, {"op": "connect", "c": 1, "w": 80}, {"op": "connect", "c": 2, "w": 80}, {"op": "idle"}]
+    cmd = rng.choice(["until-closed", "until-closed", "gather-and-close"])
+    if cmd == "gather-and-close":
+        steps += [{"op": "line", "c": 1, "text": "start 2" if cfg["cls"] == "S" else "apply tpsim.ctlworkers.work -n 2"}, {"op": "idle"}]
+    steps += [{"op": "line", "c": 1, "text": cmd}, {"op": "idle"}, {"op": "line", "c": 2, "text": "num-running"}, {"op": "idle"},
+              {"op": "close", "c": 1, "how": rng.choice(["close", "eof", "abort"])}, {"op": "idle"}]
+    if rng.random() < 0.5:
+        steps += [{"op": "stop"}, {"op": "idle"}]
+    return {"prop": "C19", "config": cfg, "steps": steps, "final": ["c19"], "parked_leave": True}
+
+
 def _final_c19(sim):
     """After the recorded steps: let the remaining clients go, then the stopped server must be gone."""
     import os
@@ -759,9 +824,16 @@ def _final_c19(sim):
     # every raw client that is still connected was answered line by line
     for c in sim.clients.values():
         if c.kind == "raw" and c.connected and not c.gone and not sim.stopped and not c.bad_handshake \
-                and c.label not in sim.run.get("expect_killed", ()):
-            if len(c.replies()) != len(c.lines):
-                sim.violate("C19", "client_not_served", f"client {c.label}: {len(c.replies())} replies for {len(c.lines)} lines while the server is up")
+                and c.label not in sim.run.get("expect_killed", ()) and getattr(c, "epoch", 0) == getattr(sim, "epoch", 0):
+            nrep, nlines = len(c.replies()), len(c.lines)
+            if nrep < nlines:
+                from .ctlsim import BLOCKING
+                nxt = c.lines[nrep].strip().split(" ")[0]
+                if nxt in BLOCKING and sim._wait_not_over(nxt):
+                    sim.stats["probe:blocking_command_pending"] += 1      # its own wait is legitimately not over
+                    continue
+            if nrep != nlines:
+                sim.violate("C19", "client_not_served", f"client {c.label}: {nrep} replies for {nlines} lines while the server is up")
     shapes = {"num-running": r"\d+\n", "is-locked": r"(True|False)\n", "pool-size": r"(\d+|inf)\n", "lock": r"ok\n", "unlock": r"ok\n",
               "cancel-all": r"ok\n", "-h": r"usage: \[-h\]", "bogus": r"usage: [\s\S]*invalid choice"}
     for c in sim.clients.values():
@@ -791,6 +863,8 @@ def _final_c19(sim):
                             sim.violate("C19", "cli_reply", f"bundled client {c.label}: reply {i} printed {shown[i][:50]!r}, server wrote {w[:50]!r}")
                             break
                     sim.stats["probe:cli_replies_compared"] += max(0, min(len(shown), len(writes) - 1))
+    if not sim.run.get("parked_leave"):
+        _end_waits(sim)
     if not sim.stopped:
         sim.exec_step({"op": "stop"})
         sim.run_to_idle()
@@ -893,8 +967,11 @@ def units(prop, tier, seed):
     n = QUICK_N[prop]
     i = 0
     if prop == "C19":
+        yield ("witness", "witness/F-PARKED-C19.json", next(order))
         for k in range(8 if tier == "quick" else 60):
             yield ("killed", subseed(seed, prop, "killed", k), next(order))
+        for k in range(24 if tier == "quick" else 200):
+            yield ("parked", subseed(seed, prop, "parked", k), next(order))
     while tier != "quick" or i < n:
         yield ("rand", subseed(seed, prop, "rand", i), next(order))
         i += 1
@@ -972,6 +1049,10 @@ def exec_unit(prop, unit, agg):
             a.violate("C17", mism[0], mism[1])
         a.run = {"prop": "C17", "config": cfg, "cmds": cmds, "steps": [], "seed": arg, "twin": True}
         _account(prop, a, agg, order, "twin", len(a.invocations) > 0 or any(r not in ("ok", None) for r in ra))
+        return
+    if kind == "parked":
+        sim = CtlSim(c19_parked_run(random.Random(arg)), {prop}).execute()
+        _account(prop, sim, agg, order, "parked_session_left", True, signature="F-PARKED")
         return
     if kind == "killed":
         sim = CtlSim(c19_killed_session_run(random.Random(arg)), {prop}).execute()
